@@ -3,16 +3,20 @@
    legacy kern lookup of src/tables/kern.rs, over the abstract lookup program of Model/Layout.v.
    Function by function after the Rust; no proofs here.  tuple = None throughout (variation deltas are 0.0).
 
-   i16 / i32 additions that Rust performs in default mode (`info.kerning += ..`, `an1.x + ..`,
-   `Distance(x1 + x2, ..)`, `kerning += value`) go through add16 / add32: Panic in Debug, wrap in Release. *)
+   The accumulating additions (`info.kerning.saturating_add(..)`, `an1.x.saturating_add(..)`,
+   `Distance(x1.saturating_add(x2), ..)`, `kerning.saturating_add(value)` in apply_kern) saturate at the bounds of
+   the i16 / i32 field: sat_add16 / sat_add32.  They are total and the same in every build profile, hence
+   combine_distance, Adjust::apply and the kern sum are plain functions (as in the Rust, where they return ()). *)
 From AV Require Import Base.Prelude Gen.LayoutConsts Gen.GposConsts Model.Layout.
 Open Scope Z_scope.
 
-Definition add_signed (bits : Z) (m : mode) (a b : Z) : outcome Z :=
-  if (- 2 ^ (bits - 1) <=? a + b) && (a + b <? 2 ^ (bits - 1)) then Ok (a + b)
-  else match m with Debug => Panic | Release => Ok (to_signed bits (a + b)) end.
-Definition add16 := add_signed 16.
-Definition add32 := add_signed 32.
+(* iN::saturating_add on operands that are iN values: the mathematical sum clamped to [-2^(N-1), 2^(N-1) - 1] *)
+Definition sat_signed (bits : Z) (v : Z) : Z :=
+  if v <? - 2 ^ (bits - 1) then - 2 ^ (bits - 1)
+  else if 2 ^ (bits - 1) <=? v then 2 ^ (bits - 1) - 1
+  else v.
+Definition sat_add16 (a b : Z) : Z := sat_signed 16 (a + b).
+Definition sat_add32 (a b : Z) : Z := sat_signed 32 (a + b).
 
 (* ------------------------------------------------------------------ Info / Placement (gpos.rs:456-554) *)
 Definition anchor := (Z * Z)%type.
@@ -64,25 +68,24 @@ Definition value_record (fmt : Z) (v : adjust) : option adjust :=
                    (if bit_set fmt VF_Y_ADVANCE then y_advance v else 0)).
 
 (* Placement::combine_distance *)
-Definition combine_distance (m : mode) (p : placement) (x2 y2 : Z) : outcome placement :=
+Definition combine_distance (p : placement) (x2 y2 : Z) : placement :=
   match p with
-  | PNone | PMarkOverprint _ | PCursiveAnchor _ _ _ _ => Ok (PDistance x2 y2)
-  | PDistance x1 y1 => x <- add32 m x1 x2 ;; y <- add32 m y1 y2 ;; Ok (PDistance x y)
+  | PNone | PMarkOverprint _ | PCursiveAnchor _ _ _ _ => PDistance x2 y2
+  | PDistance x1 y1 => PDistance (sat_add32 x1 x2) (sat_add32 y1 y2)
   | PMarkAnchor i (ax, ay) an2 =>
-    x <- add16 m ax (to_signed 16 x2) ;; y <- add16 m ay (to_signed 16 y2) ;; Ok (PMarkAnchor i (x, y) an2)
+    PMarkAnchor i (sat_add16 ax (to_signed 16 x2), sat_add16 ay (to_signed 16 y2)) an2      (* `x2 as i16` *)
   end.
 
-(* Adjust::apply with tuple = None *)
-Definition adjust_apply (m : mode) (a : adjust) (x : info) : outcome info :=
+(* Adjust::apply with tuple = None (x_advance_delta = 0: self.x_advance.saturating_add(0) = self.x_advance) *)
+Definition adjust_apply (a : adjust) (x : info) : info :=
   if (x_placement a =? 0) && (y_placement a =? 0) then
-    if negb (x_advance a =? 0) && (y_advance a =? 0) then k <- add16 m (i_kern x) (x_advance a) ;; Ok (set_kern x k)
-    else if negb (y_advance a =? 0) then Ok x
-    else k <- add16 m (i_kern x) 0 ;; Ok (set_kern x k)
+    if negb (x_advance a =? 0) && (y_advance a =? 0) then set_kern x (sat_add16 (i_kern x) (x_advance a))
+    else if negb (y_advance a =? 0) then x
+    else set_kern x (sat_add16 (i_kern x) 0)
   else if y_advance a =? 0 then
-    p <- combine_distance m (i_place x) (x_placement a) (y_placement a) ;;
-    k <- add16 m (i_kern x) (x_advance a) ;;
-    Ok (set_kern (set_place x p) k)
-  else Ok x.
+    set_kern (set_place x (combine_distance (i_place x) (x_placement a) (y_placement a)))
+             (sat_add16 (i_kern x) (x_advance a))
+  else x.
 
 (* ------------------------------------------------------------------ subtables *)
 Inductive single_pos :=
@@ -230,20 +233,20 @@ Definition mark_lig_pos_apply (s : mark_lig_pos) (g1 g2 comp : Z) : outcome (opt
   end.
 
 (* ------------------------------------------------------------------ per-pair actions (gpos.rs:712-831) *)
-Definition singlepos (m : mode) (subs : list single_pos) (x : info) : outcome info :=
+Definition singlepos (subs : list single_pos) (x : info) : outcome info :=
   r <- first_sub (fun s => single_pos_apply s (i_id x)) subs ;;
-  match r with Some adj => adjust_apply m adj x | None => Ok x end.
+  match r with Some adj => Ok (adjust_apply adj x) | None => Ok x end.
 
 Definition update_at (f : info -> outcome info) (l : list info) (i : Z) : outcome (list info) :=
   x <- iget l i ;; x' <- f x ;; Ok (iset l i x').
 
-Definition pairpos (m : mode) (subs : list pair_pos) (i1 i2 : Z) (l : list info) : outcome (list info) :=
+Definition pairpos (subs : list pair_pos) (i1 i2 : Z) (l : list info) : outcome (list info) :=
   x1 <- iget l i1 ;; x2 <- iget l i2 ;;
   r <- first_sub (fun s => pair_pos_apply s (i_id x1) (i_id x2)) subs ;;
   match r with
   | Some (a1, a2) =>
-    l1 <- match a1 with Some a => update_at (adjust_apply m a) l i1 | None => Ok l end ;;
-    match a2 with Some a => update_at (adjust_apply m a) l1 i2 | None => Ok l1 end
+    l1 <- match a1 with Some a => update_at (fun x => Ok (adjust_apply a x)) l i1 | None => Ok l end ;;
+    match a2 with Some a => update_at (fun x => Ok (adjust_apply a x)) l1 i2 | None => Ok l1 end
   | None => Ok l
   end.
 
@@ -363,7 +366,7 @@ Definition forall_mark_mark_glyph_pairs (f : Z -> Z -> action) (l : list info) :
 Definition get_plookup (lookups : list plookup) (index : Z) : outcome plookup := checked_nth lookups index.
 
 (* apply_pos: the sequence position is located with the NESTED lookup's match type *)
-Definition apply_pos (m : mode) (lookups : list plookup) (gd : option gdef) (pos_index lookup_index : Z)
+Definition apply_pos (lookups : list plookup) (gd : option gdef) (pos_index lookup_index : Z)
   (l : list info) (index : Z) : outcome (list info) :=
   lk <- get_plookup lookups lookup_index ;;
   let mt := from_lookup_flag (pl_flag lk) (pl_mfs lk) in
@@ -371,9 +374,9 @@ Definition apply_pos (m : mode) (lookups : list plookup) (gd : option gdef) (pos
   | None => Ok l
   | Some i1 =>
     match pl_body lk with
-    | LSinglePos subs => update_at (singlepos m subs) l i1
+    | LSinglePos subs => update_at (singlepos subs) l i1
     | LPairPos subs =>
-      match find_next mt gd (iids l) i1 with Some i2 => pairpos m subs i1 i2 l | None => Ok l end
+      match find_next mt gd (iids l) i1 with Some i2 => pairpos subs i1 i2 l | None => Ok l end
     | LCursivePos subs =>
       match find_next mt gd (iids l) i1 with Some i2 => cursivepos subs i1 i2 (pl_flag lk) l | None => Ok l end
     | LMarkBasePos subs =>
@@ -387,27 +390,27 @@ Definition apply_pos (m : mode) (lookups : list plookup) (gd : option gdef) (pos
     end
   end.
 
-Fixpoint apply_pos_context (m : mode) (lookups : list plookup) (gd : option gdef) (recs : lookup_records)
+Fixpoint apply_pos_context (lookups : list plookup) (gd : option gdef) (recs : lookup_records)
   (i : Z) (l : list info) : outcome (list info) :=
   match recs with
   | [] => Ok l
-  | (pi, li) :: t => l' <- apply_pos m lookups gd pi li l i ;; apply_pos_context m lookups gd t i l'
+  | (pi, li) :: t => l' <- apply_pos lookups gd pi li l i ;; apply_pos_context lookups gd t i l'
   end.
 
-Definition contextpos (m : mode) (lookups : list plookup) (gd : option gdef) (mt : match_type)
+Definition contextpos (lookups : list plookup) (gd : option gdef) (mt : match_type)
   (subs : list context_lookup) (i : Z) (l : list info) : outcome (list info) :=
   x <- iget l i ;;
   r <- first_sub (fun s => context_lookup_info s (i_id x) (fun mc => mc_matches gd mt mc (iids l) i)) subs ;;
-  match r with Some pos => apply_pos_context m lookups gd (snd pos) i l | None => Ok l end.
+  match r with Some pos => apply_pos_context lookups gd (snd pos) i l | None => Ok l end.
 
-Definition chaincontextpos (m : mode) (lookups : list plookup) (gd : option gdef) (mt : match_type)
+Definition chaincontextpos (lookups : list plookup) (gd : option gdef) (mt : match_type)
   (subs : list chain_context_lookup) (i : Z) (l : list info) : outcome (list info) :=
   x <- iget l i ;;
   r <- first_sub (fun s => chain_context_lookup_info s (i_id x) (fun mc => mc_matches gd mt mc (iids l) i)) subs ;;
-  match r with Some pos => apply_pos_context m lookups gd (snd pos) i l | None => Ok l end.
+  match r with Some pos => apply_pos_context lookups gd (snd pos) i l | None => Ok l end.
 
 (* ------------------------------------------------------------------ gpos_apply_lookup (gpos.rs:256-334) *)
-Definition gpos_apply_lookup (m : mode) (lookups : option (list plookup)) (gd : option gdef) (lookup_index : Z)
+Definition gpos_apply_lookup (lookups : option (list plookup)) (gd : option gdef) (lookup_index : Z)
   (l : list info) : outcome (list info) :=
   match lookups with
   | None => Ok l
@@ -415,15 +418,15 @@ Definition gpos_apply_lookup (m : mode) (lookups : option (list plookup)) (gd : 
     lk <- get_plookup lks lookup_index ;;
     let mt := from_lookup_flag (pl_flag lk) (pl_mfs lk) in
     match pl_body lk with
-    | LSinglePos subs => forall_glyphs_match (length l) mt gd (fun i l => update_at (singlepos m subs) l i) l 0
-    | LPairPos subs => forall_glyph_pairs_match mt gd (fun i1 i2 l => pairpos m subs i1 i2 l) l
+    | LSinglePos subs => forall_glyphs_match (length l) mt gd (fun i l => update_at (singlepos subs) l i) l 0
+    | LPairPos subs => forall_glyph_pairs_match mt gd (fun i1 i2 l => pairpos subs i1 i2 l) l
     | LCursivePos subs =>
       forall_glyph_pairs_match mt_ignore_marks gd (fun i1 i2 l => cursivepos subs i1 i2 (pl_flag lk) l) l
     | LMarkBasePos subs => forall_base_mark_glyph_pairs (fun i1 i2 l => markbasepos subs i1 i2 l) l
     | LMarkLigPos subs => forall_base_mark_glyph_pairs (fun i1 i2 l => markligpos subs i1 i2 l) l
     | LMarkMarkPos subs => forall_mark_mark_glyph_pairs (fun i1 i2 l => markbasepos subs i1 i2 l) l
-    | LContextPos subs => forall_glyphs_match (length l) mt gd (fun i l => contextpos m lks gd mt subs i l) l 0
-    | LChainContextPos subs => forall_glyphs_match (length l) mt gd (fun i l => chaincontextpos m lks gd mt subs i l) l 0
+    | LContextPos subs => forall_glyphs_match (length l) mt gd (fun i l => contextpos lks gd mt subs i l) l 0
+    | LChainContextPos subs => forall_glyphs_match (length l) mt gd (fun i l => chaincontextpos lks gd mt subs i l) l 0
     end
   end.
 
@@ -469,28 +472,26 @@ Definition kern_is_cross_stream (c : Z) : bool := negb (Z.land c KERN_CROSS_STRE
 Definition kern_is_override (c : Z) : bool := negb (Z.land c KERN_OVERRIDE =? 0).
 
 (* the `for sub_table in kern.sub_tables()` accumulation for one pair; kerning : i16 *)
-Fixpoint kern_pair (m : mode) (subs : list kern_subtable) (lf rt : Z) (kerning : Z) : outcome Z :=
+Fixpoint kern_pair (subs : list kern_subtable) (lf rt : Z) (kerning : Z) : Z :=
   match subs with
-  | [] => Ok kerning
+  | [] => kerning
   | s :: t =>
-    if negb (kern_is_horizontal (k_coverage s)) || kern_is_cross_stream (k_coverage s) then kern_pair m t lf rt kerning
+    if negb (kern_is_horizontal (k_coverage s)) || kern_is_cross_stream (k_coverage s) then kern_pair t lf rt kerning
     else match kern_lookup (k_data s) lf rt with
          | Some v =>
-           k <- (if kern_is_override (k_coverage s) then Ok v
-                 else if kern_is_minimum (k_coverage s) then Ok (Z.min kerning v)
-                 else add16 m kerning v) ;;
-           kern_pair m t lf rt k
-         | None => kern_pair m t lf rt kerning
+           kern_pair t lf rt (if kern_is_override (k_coverage s) then v
+                              else if kern_is_minimum (k_coverage s) then Z.min kerning v
+                              else sat_add16 kerning v)
+         | None => kern_pair t lf rt kerning
          end
   end.
 
 (* apply_kern: left.kerning = kerning for every adjacent pair (no glyph is skipped) *)
-Fixpoint apply_kern (m : mode) (subs : list kern_subtable) (l : list info) : outcome (list info) :=
+Fixpoint apply_kern (subs : list kern_subtable) (l : list info) : outcome (list info) :=
   match l with
   | x :: ((y :: _) as t) =>
-    k <- kern_pair m subs (i_id x) (i_id y) 0 ;;
-    t' <- apply_kern m subs t ;;
-    Ok (set_kern x k :: t')
+    t' <- apply_kern subs t ;;
+    Ok (set_kern x (kern_pair subs (i_id x) (i_id y) 0) :: t')
   | _ => Ok l
   end.
 
@@ -503,9 +504,9 @@ Fixpoint fallback_marks (l : list info) (i base : Z) : list info :=
     else x :: fallback_marks t (i + 1) i
   end.
 
-Definition apply_fallback (m : mode) (kern : option (list kern_subtable)) (nsm : list bool) (l : list info)
+Definition apply_fallback (kern : option (list kern_subtable)) (nsm : list bool) (l : list info)
   : outcome (list info) :=
-  l1 <- match kern with Some k => apply_kern m k l | None => Ok l end ;;
+  l1 <- match kern with Some k => apply_kern k l | None => Ok l end ;;
   let l2 := map (fun p => if negb (i_mark (fst p)) && snd p then set_mark (fst p) else fst p) (combine l1 nsm) in
   match l2 with
   | [] => Ok []
@@ -553,33 +554,33 @@ Fixpoint insert_sorted (k : Z) (l : list Z) : list Z :=
   end.
 Definition sort_dedup (l : list Z) : list Z := fold_left (fun acc k => insert_sorted k acc) l [].
 
-Fixpoint apply_lookup_list (m : mode) (t : playout) (gd : option gdef) (idx : list Z) (l : list info) : outcome (list info) :=
+Fixpoint apply_lookup_list (t : playout) (gd : option gdef) (idx : list Z) (l : list info) : outcome (list info) :=
   match idx with
   | [] => Ok l
-  | li :: rest => l' <- gpos_apply_lookup m (pt_lookups t) gd li l ;; apply_lookup_list m t gd rest l'
+  | li :: rest => l' <- gpos_apply_lookup (pt_lookups t) gd li l ;; apply_lookup_list t gd rest l'
   end.
 
-Fixpoint apply_features (m : mode) (t : playout) (gd : option gdef) (kern : option (list kern_subtable))
+Fixpoint apply_features (t : playout) (gd : option gdef) (kern : option (list kern_subtable))
   (ls : list Z) (features : list Z) (l : list info) : outcome (list info) :=
   match features with
   | [] => Ok l
   | tag :: rest =>
     ft <- pfind_langsys_feature t ls tag ;;
     l' <- match ft with
-          | Some idx => apply_lookup_list m t gd (sort_dedup idx) l
+          | Some idx => apply_lookup_list t gd (sort_dedup idx) l
           | None => match kern with
-                    | Some k => if tag =? TAG_KERN_FALLBACK then apply_kern m k l else Ok l
+                    | Some k => if tag =? TAG_KERN_FALLBACK then apply_kern k l else Ok l
                     | None => Ok l
                     end
           end ;;
-    apply_features m t gd kern ls rest l'
+    apply_features t gd kern ls rest l'
   end.
 
 (* gpos::apply for scripts of ScriptType::Default, Features::Custom, tuple = None *)
 Definition base_features_default (kerning : bool) : list Z :=
   if kerning then BASE_FEATURES_KERNING else BASE_FEATURES_NO_KERNING.
 
-Definition gpos_apply (m : mode) (t : playout) (gd : option gdef) (kern : option (list kern_subtable)) (kerning : bool)
+Definition gpos_apply (t : playout) (gd : option gdef) (kern : option (list kern_subtable)) (kerning : bool)
   (custom : list Z) (script_tag : Z) (lang : option Z) (l : list info) : outcome (list info) :=
   match pfind_script_or_default t script_tag with
   | None => Ok l
@@ -587,8 +588,8 @@ Definition gpos_apply (m : mode) (t : playout) (gd : option gdef) (kern : option
     match pfind_langsys_or_default s lang with
     | None => Ok l
     | Some ls =>
-      l1 <- apply_features m t gd kern ls (base_features_default kerning) l ;;
-      apply_features m t gd kern ls custom l1
+      l1 <- apply_features t gd kern ls (base_features_default kerning) l ;;
+      apply_features t gd kern ls custom l1
     end
   end.
 
